@@ -7,7 +7,7 @@ use futures::{
 use std::{
     error::Error,
     fmt,
-    mem::size_of,
+    mem::{self, size_of},
     pin::Pin,
     sync::{
         Arc, Weak,
@@ -406,6 +406,10 @@ impl Sender {
 
         while !ports_response.is_empty() {
             if (credits.available() as usize) < size_of::<u32>() {
+                // Give the remaining credits back first: the request for more must not wait
+                // while credits that it could use are held outside the pool.
+                drop(mem::take(&mut credits));
+
                 let data_len = ports_response.len() * size_of::<u32>();
                 credits =
                     self.credits.request(data_len.min(u32::MAX as usize) as u32, size_of::<u32>() as u32).await?;
